@@ -15,6 +15,38 @@ fn deferred_zombie() -> Vec<Op> {
     vec![Op::Add, Op::Add, Op::Add, Op::Tick(0), Op::Tick(1), Op::Tick(2), Op::Burn(0), Op::Finish(1), Op::DropBar(1), Op::DropBar(0)]
 }
 
+/// finish / drop / suspend / println only: every order in which two bars finish and are dropped,
+/// interleaved with output (deep histories over a small alphabet)
+fn focus_finish_drop_print(o: &Op) -> bool {
+    matches!(o, Op::Finish(_) | Op::DropBar(_) | Op::MpSuspend | Op::MpPrintln | Op::BarPrintln(0))
+}
+
+/// growing and shrinking a bottom-aligned region: add, tick the newest and the first bar, remove,
+/// finish and drop the first bar
+fn focus_bottom_growth(o: &Op) -> bool {
+    matches!(o, Op::Add | Op::Tick(0) | Op::Tick(3) | Op::Tick(4) | Op::Remove(1) | Op::Remove(2) | Op::Finish(0) | Op::DropBar(0) | Op::MpPrintln)
+}
+
+fn focus_cfgs(tier: Tier) -> Vec<(Cfg, usize)> {
+    let mut v = Vec::new();
+    let mut c = Cfg::base("focus-finish-drop-print", 20, 40);
+    c.root = pre_logs(1, two_drawn());
+    c.only = Some(focus_finish_drop_print);
+    v.push((c, if tier == Tier::Quick { 6 } else { 8 }));
+    let mut c = Cfg::base("focus-finish-drop-print-hz1", 20, 40);
+    c.hz = Some(1);
+    c.root = pre_logs(1, vec![Op::Add, Op::Add, Op::Tick(0), Op::Tick(1), Op::Burn(0)]);
+    c.only = Some(focus_finish_drop_print);
+    v.push((c, if tier == Tier::Quick { 5 } else { 7 }));
+    let mut c = Cfg::base("focus-bottom-growth", 20, 40);
+    c.root = pre_logs(1, vec![Op::AlignBottom, Op::Add, Op::Add, Op::Add, Op::Tick(0), Op::Tick(1), Op::Tick(2)]);
+    c.max_bars = 5;
+    c.msgs = vec![];
+    c.only = Some(focus_bottom_growth);
+    v.push((c, if tier == Tier::Quick { 7 } else { 9 }));
+    v
+}
+
 fn pre_logs(n: usize, mut rest: Vec<Op>) -> Vec<Op> {
     let mut v: Vec<Op> = (0..n).map(|_| Op::MpPrintln).collect();
     v.append(&mut rest);
@@ -77,6 +109,7 @@ pub fn c02_configs(tier: Tier) -> Vec<(Cfg, usize)> {
         c.vt = true;
         v.push((c, 4));
     }
+    v.extend(focus_cfgs(tier));
     v
 }
 
@@ -154,6 +187,7 @@ pub fn c03_configs(tier: Tier) -> Vec<(Cfg, usize)> {
         c.inserts = false;
         v.push((c, 4));
     }
+    v.extend(focus_cfgs(tier));
     v
 }
 
@@ -210,6 +244,7 @@ pub fn c04_configs(tier: Tier) -> Vec<(Cfg, usize)> {
     c.root = two_drawn();
     c.inserts = false;
     v.push((c, d));
+    v.extend(focus_cfgs(tier));
     v
 }
 
@@ -290,6 +325,8 @@ pub fn c19_configs(tier: Tier) -> Vec<(Cfg, usize)> {
     c.root = pre_logs(3, vec![]);
     c.msgs = vec!["q".repeat(4)];
     v.push((c, if tier == Tier::Quick { 4 } else { 5 }));
+    // growth and shrinkage of a bottom-aligned region (padding rows), general list-of-bars oracle
+    v.extend(focus_cfgs(tier).into_iter().filter(|(c, _)| c.name == "focus-bottom-growth"));
     v
 }
 
